@@ -1090,12 +1090,15 @@ def gen_wkdibe(rng, n, tier):
     # an empty `from`; the adjusted product must be the product of `to` (every listed (slot, id) counts), a key that has the slot HIDDEN
     # must not open the ciphertext, the exact-match key must
     if l >= 4:
-        flag_cases = [([(0, vals[0], False)], [(0, vals[0], False), (3, vals[3], True)]),
-                      ([(2, vals[2], False)], [(0, vals[0], True), (2, vals[2], False)]),
-                      ([(0, vals[0], False), (3, vals[3], False)], [(0, vals[0], False), (1, vals[1], True), (3, vals[3], False)]),
-                      ([(1, vals[1], False)], [(1, vals[1], True)]),
-                      ([], [(2, vals[2], True)]),
-                      ([(0, vals[0], True)], [(0, vals[0], True), (1, vals[1], True), (2, vals[2], True), (3, vals[3], True)])]
+        # identifiers that are NOT 0 modulo r (an attribute with id = 0 mod r contributes the identity: hiding it changes nothing, so
+        # "must not open" would be the wrong expectation)
+        nz = [v if v % R != 0 else 7 + i for i, v in enumerate(vals)]
+        flag_cases = [([(0, nz[0], False)], [(0, nz[0], False), (3, nz[3], True)]),
+                      ([(2, nz[2], False)], [(0, nz[0], True), (2, nz[2], False)]),
+                      ([(0, nz[0], False), (3, nz[3], False)], [(0, nz[0], False), (1, nz[1], True), (3, nz[3], False)]),
+                      ([(1, nz[1], False)], [(1, nz[1], True)]),
+                      ([], [(2, nz[2], True)]),
+                      ([(0, nz[0], True)], [(0, nz[0], True), (1, nz[1], True), (2, nz[2], True), (3, nz[3], True)])]
         for (fa_, ta_) in flag_cases:
             rf_ = S.pre(p0, fa_); rt_ = S.adjustpre(rf_, p0, fa_, ta_)
             ctf_ = S.encrypt(p0, None, pre=rt_)
